@@ -1,5 +1,6 @@
 #!/bin/sh
-# run seedcheck for every /tmp/seed/C??/[AB] that has meta.json and no result.json yet (4 at a time)
-ls -d /tmp/seed/C??/[AB] 2>/dev/null | while read d; do
+# seedall.sh <dir>: run seedcheck for every <dir>/C??/[AB] that has meta.json + patch.diff and no result.json yet (5 at a time)
+D=${1:-/tmp/seed}
+ls -d $D/C??/[AB] 2>/dev/null | while read d; do
   [ -f "$d/meta.json" ] && [ -f "$d/patch.diff" ] && [ ! -f "$d/result.json" ] && echo "$d"
-done | xargs -P 4 -I{} sh -c '/verif/tools/seedcheck.py {} --props all > {}/result.json 2>{}/result.err'
+done | xargs -P 5 -I{} sh -c '/verif/tools/seedcheck.py {} --props all > {}/result.json 2>{}/result.err'
